@@ -260,7 +260,7 @@ class ScalarEval(AbsInt):
                 return ("mults", )
             if attr == "shape":
                 return ("shape", base)
-            if attr in ("xnp", "dtype", "device", "perm"):
+            if attr in ("xnp", "dtype", "device", "perm", "vec", "beta"):
                 return ("ssym", f"{n}.{attr}")
         if base == VAR and attr == "shape":
             return ("shape", VAR)
